@@ -288,6 +288,51 @@ theorem calcPerm_sorts (order : List Nat) (vs : List (List K)) (hlen : order.len
 end listlevel
 
 
+/-! ### the executed object-level path (`ratPerm`, `tensorStateState`) -/
+
+/-- the driver's `ratPerm` (integer matrix, entries cast to ℚ) is `calc_permutation_matrix` over ℚ -/
+theorem ratPerm_eq_calcPerm (order sizes : List Nat) : ratPerm order sizes = calcPerm (K := Rat) order sizes := by
+  rw [← map_calcPerm (Int.castRingHom ℚ) order sizes]
+  unfold ratPerm
+  cases calcPerm (K := Int) order sizes <;> simp [Except.map, bind, Except.bind, pure, Except.pure, DMat.map]
+
+/-- C07 "the tensor product … denotes the Kronecker product of their operators arranged in ascending subsystem name,
+whatever the order … of the arguments", on the **executed** `_tensor_product_State_State` (`tensorStateState`, the
+function behind the `tensor` / `fold` driver ops): for operands that are themselves tensor products of one vector per
+elemental system (in particular for any two states on single subsystems, `vs = [v]`), of any number and dimensions of
+subsystems with distinct names, the result is the sorted composite system together with the tensor product of the
+same vectors rearranged with their names ascending. Partial: operands on several subsystems are covered in product
+form only (the extension to entangled inputs by linearity is not proved), and the analogous statements for the
+POVM / gate / measurement-process branches rest on `calcPerm_sorts`, `hs_tensor` and the correspondence. -/
+theorem tensorStateState_product_partial (s1 s2 : List ESys) (vs1 vs2 : List (List Rat))
+    (hnd : ((s1 ++ s2).map (·.1)).Nodup)
+    (h1 : vs1.map List.length = s1.map fun x => sq x.2) (h2 : vs2.map List.length = s2.map fun x => sq x.2) :
+    ∃ (o : List Nat) (vs' : List (List Rat)),
+      tensorStateState s1 (kronAll vs1) s2 (kronAll vs2) = .ok ((s1 ++ s2).foldr insertSorted [], kronAll vs') ∧
+      o.Pairwise (· ≤ ·) ∧ (o.zip vs').Perm (((s1 ++ s2).map (·.1)).zip (vs1 ++ vs2)) ∧
+      o.length = (s1 ++ s2).length ∧ vs'.length = (vs1 ++ vs2).length := by
+  have hsz : (s1 ++ s2).map (fun x => sq x.2) = (vs1 ++ vs2).map List.length := by
+    simp [h1, h2]
+  have hlen : ((s1 ++ s2).map (·.1)).length = (vs1 ++ vs2).length := by
+    have e1 := congrArg List.length h1
+    have e2 := congrArg List.length h2
+    simp at e1 e2 ⊢; omega
+  obtain ⟨P, o, vs', hP, hv, hs, hp, hlo, hlv⟩ := calcPerm_sorts (K := Rat) ((s1 ++ s2).map (·.1)) (vs1 ++ vs2) hlen
+  refine ⟨o, vs', ?_, hs, hp, by simpa using hlo, hlv⟩
+  unfold tensorStateState
+  simp only [mkCSys, hnd, if_true, bind, Except.bind, pure, Except.pure, ratPerm_eq_calcPerm, hsz, hP]
+  rw [kronL_eq, ← kronAll_append, hv]
+
+/-- non-vacuity of `tensorStateState_product_partial`: a qutrit state on subsystem 5 and a qubit state on subsystem 2
+(argument order descending, different dimensions) -/
+example : (([(5, 3)] ++ [(2, 2)] : List ESys).map (·.1)).Nodup ∧
+    [List.replicate 9 (1 / 3 : Rat)].map List.length = [(5, 3)].map (fun x : ESys => sq x.2) ∧
+    [[(1 : Rat), 0, 0, 1]].map List.length = [(2, 2)].map (fun x : ESys => sq x.2) := by
+  decide
+
+/-- non-vacuity of `calcPerm_sorts` / `calcPerm_total`: four subsystems of sizes 2,3,2,3 out of order -/
+example : ∃ P, calcPerm (K := Int) [1, 0, 3, 2] [2, 3, 2, 3] = .ok P := calcPerm_total _ _ rfl
+
 /-! ### tie to the source: the model equals the definitions regenerated from matrix_util.py on every run -/
 
 /-- `_left_permutation_matrix` of the model is built from exactly the head / tail identity sizes, `_K` arguments and
@@ -303,9 +348,11 @@ theorem leftPerm_matches_source {K : Type} [Add K] [Mul K] [Zero K] [One K] (pos
   unfold leftPerm QGen.C07.kArgs QGen.C07.headSize QGen.C07.tailSize QGen.C07.redMul prodL
   cases sizes[position]? <;> cases sizes[position - 1]? <;> rfl
 
-/-- the two tuple swaps and the accumulation order of the `calc_permutation_matrix` loop, as read off the source:
-`swapAt` of the model performs exactly the generated swaps (a no-op swap of `tmp_size_list`, seeded change C07-2,
-breaks this), and the model multiplies the new factor on the left as the source does. -/
+/-- the two tuple swaps of the `calc_permutation_matrix` loop, as read off the source: `swapAt` of the model performs
+exactly the generated swaps (a no-op swap of `tmp_size_list`, seeded change C07-2, breaks this). The last conjunct is
+only a tripwire on the generated constant (`perm_matrix = left_perm @ perm_matrix` has the new factor on the left, as
+`calcPermLoop`'s `left.mul perm`); `_check_cross_system_position`, `_K` and operators.py are not regenerated — those
+are tied by the correspondence only. -/
 theorem calcPerm_loop_matches_source (pre : List Nat) (a b : Nat) (post : List Nat) :
     swapAt (pre ++ a :: b :: post) (pre.length + 1)
         = pre ++ (QGen.C07.swapOrder (a, b)).1 :: (QGen.C07.swapOrder (a, b)).2 :: post ∧
@@ -524,7 +571,6 @@ example : Function.Injective iota1 ∧ (1 : Matrix (Fin 3) (Fin 3) ℂ).PosSemid
 example : (Kmat (K := Int) 2 3).mulVec (kronVec #v[1, 2, 3] #v[10, 20]) = kronVec #v[10, 20] #v[1, 2, 3] := by
   decide +kernel
 example : checkCross [0, 5, 2] = some 2 := by decide
-example : isShapeErr (calcPerm (K := Int) [1, 0, 2] [2, 3, 2]) = false := by decide +kernel
 example : dotL (kronL [1, 2] [3, 4, 5]) (kronL [1/2, 1] [1, 0, 2]) = dotL [1, 2] [1/2, 1] * dotL [3, 4, 5] [1, 0, 2] := by
   decide +kernel
 
